@@ -207,6 +207,19 @@ def build_specs():
     reg(Spec("BVConcat", "*", lambda xs, i: z3.And(z3.BoolVal(len(xs) >= 2), *[is_bv(ty(x)) for x in xs]),
              lambda xs, i: S.BVT(z3.Sum([w_of(x) for x in xs])),
              lambda xs, i: VBV(_concat_val(xs)), arities=(2, 3)))
+    for c in (1, 2, 3, 4, 5):
+        def rep(xs, i, c=c):
+            a, w = vbv(v(xs[0])), w_of(xs[0])
+            cur = a
+            for _ in range(c - 1):
+                cur = cur * pow2(w) + a
+            return VBV(cur)
+        sp = Spec("BVRepeat[%d]" % c, "N", lambda xs, i: is_bv(ty(xs[0])), (lambda c: lambda xs, i: S.BVT(K(c) * w_of(xs[0])))(c), rep)
+        if c == 1:
+            # one copy: the term itself comes back, whatever its type (no node is built, so there is nothing to reject)
+            sp = Spec("BVRepeat[1]", "N", lambda xs, i: z3.BoolVal(True), lambda xs, i: ty(xs[0]), lambda xs, i: v(xs[0]))
+        sp.method, sp.suffix = "BVRepeat", [c]
+        reg(sp)
     reg(Spec("BVExtract", "NII", lambda xs, i: z3.And(is_bv(ty(xs[0])), i[0] >= 0, i[0] <= i[1], i[1] < w_of(xs[0])),
              lambda xs, i: S.BVT(i[1] - i[0] + 1),
              lambda xs, i: VBV((vbv(v(xs[0])) / pow2(i[0])) % pow2(i[1] - i[0] + 1)), ints={"names": ["start", "end"]}))
@@ -327,6 +340,7 @@ class ConstructorVariant(Variant):
                     n = z3.Const("n%d" % len(ints), I)
                     ints.append(n)
                     call.append(n)
+        call.extend(getattr(sp, "suffix", []))
         for x in xs:
             W.touch(ex, x)
             ex.assume(z3.Not(Ty.is_FunT(ty(x))))         # arguments are terms (stated assumption)
@@ -342,7 +356,7 @@ class ConstructorVariant(Variant):
         ok = sp.applicable(self.xs, self.ints)
         kind, r = outcome
         if kind == "raise":
-            return [("C03:raises-only-if-ill-formed", z3.Not(ok))]
+            return [("C03:raises-only-if-ill-formed", z3.Not(ok)), ("C06:defined-on-every-well-formed-application", z3.Not(ok))]
         if not is_node(r):
             return [("returns-node", z3.BoolVal(False))]
         self.world.touch(ex, r)
@@ -387,7 +401,7 @@ class ConstructorVariant(Variant):
     def witness(self, model, ex):
         from pyvc.concretize import node_to_json, as_int
         return {"constructor": self.sp.name, "method": self.method, "prefix": list(getattr(self.sp, "prefix", [])),
-                "nary": self.sp.params == "*",
+                "nary": self.sp.params == "*", "suffix": list(getattr(self.sp, "suffix", [])),
                 "args": [node_to_json(model, x, depth=2) for x in self.xs],
                 "ints": [as_int(model, n) for n in self.ints]}
 
@@ -655,4 +669,68 @@ def variants(world, tier="quick", only=None):   # noqa: F811
         if only and v_.name not in only and "infix" not in only:
             continue
         out.append(v_)
+    return out
+
+
+# ---------------------------------------------------------------------------
+# the remaining named methods of FNode: x.Ite(t, e), x.BVExtract(i, j), x.BVRol(n), x.Select(i), x.Store(i, v) ...
+# ---------------------------------------------------------------------------
+FNODE_METHODS = {
+    # method: (specification, extra node arguments, extra integer arguments, fixed trailing arguments)
+    "Ite": ("Ite", 2, 0, []), "BVConcat": ("BVConcat", 1, 0, []), "BVExtract": ("BVExtract", 0, 2, []),
+    "BVRol": ("BVRol", 0, 1, []), "BVRor": ("BVRor", 0, 1, []), "BVSExt": ("BVSExt", 0, 1, []), "BVZExt": ("BVZExt", 0, 1, []),
+    "BVRepeat": ("BVRepeat[3]", 0, 0, [3]), "Select": ("Select", 1, 0, []), "Store": ("Store", 2, 0, []),
+}
+
+
+class FNodeMethodVariant(Variant):
+    """x.<Method>(...) is the named constructor applied to x followed by the arguments in the order given."""
+    prop_ids = ("C06", "C03")
+
+    def __init__(self, world, meth):
+        self.world, self.meth = world, meth
+        self.qualname = "pysmt.fnode.FNode." + meth
+        self.name = "method:" + meth
+
+    def setup(self, ex):
+        W = self.world
+        core.make_env(ex, W)
+        spn, nn, ni, fixed = FNODE_METHODS[self.meth]
+        self.sp = SPECS[spn]
+        self.xs = [z3.Const("x%d" % i, Node) for i in range(nn + 1)]
+        self.ints = [z3.Const("n%d" % i, I) for i in range(ni)]
+        for n in self.xs:
+            W.touch(ex, n)
+            ex.assume(z3.Not(Ty.is_FunT(ty(n))))
+        fi = W.repo.func(self.qualname)
+        return W.wrap_func(fi, fi.module, bound=self.xs[0]), list(self.xs[1:]) + list(self.ints) + list(fixed), {}
+
+    def check(self, ex, outcome):
+        sp = self.sp
+        ok = sp.applicable(self.xs, self.ints)
+        kind, r = outcome
+        if kind == "raise":
+            return [("C03:raises-only-if-ill-formed", z3.Not(ok)), ("C06:defined-on-every-well-formed-application", z3.Not(ok))]
+        if not is_node(r):
+            return [("returns-node", z3.BoolVal(False))]
+        self.world.touch(ex, r)
+        return [("C03:ill-formed-application-rejected", ok),
+                ("C03:result-type", z3.Implies(ok, ty(r) == sp.rtype(self.xs, self.ints))),
+                ("C06:denotes-named-function", z3.Implies(ok, v(r) == sp.rval(self.xs, self.ints)))]
+
+    def witness(self, model, ex):
+        from pyvc.concretize import node_to_json, as_int
+        return {"fnode_method": self.meth, "args": [node_to_json(model, x, depth=2) for x in self.xs],
+                "ints": [as_int(model, n) for n in self.ints]}
+
+
+_base_variants6m = variants
+
+
+def variants(world, tier="quick", only=None):   # noqa: F811
+    out = _base_variants6m(world, tier, only)
+    for m in FNODE_METHODS:
+        if only and ("method:" + m) not in only and "method:" not in only:
+            continue
+        out.append(FNodeMethodVariant(world, m))
     return out
